@@ -4,6 +4,8 @@ import (
 	"encoding/json"
 	"flag"
 	"fmt"
+	"go/ast"
+	"go/types"
 	"os"
 	"path/filepath"
 	"regexp"
@@ -586,6 +588,22 @@ func writeLocals(g *Global, vdir string) {
 	}
 	lb, _ := json.MarshalIndent(locals, "", " ")
 	os.WriteFile(filepath.Join(vdir, "locals.lock.json"), lb, 0o644)
+	// fingerprints of every loop and anchored statement (for stable ordinals after insertions / deletions)
+	anch := map[string]AnchorLock{}
+	g.lockedAnchors = nil
+	g.lockedLocals = locals
+	g.renameCache = map[string]map[string]types.Object{}
+	for key := range g.cs.Funcs {
+		fi := g.funcs[key]
+		if fi == nil {
+			continue
+		}
+		x := &Exec{g: g, c: newCtx(g), fi: fi, names: map[string]int{}, ord: map[ast.Node]int{}, loopOrd: map[ast.Node]int{}, anchors: map[ast.Stmt][]string{}, usedContracts: map[string]bool{}}
+		x.prepass()
+		anch[key] = x.currentAnchorLock()
+	}
+	ab, _ := json.MarshalIndent(anch, "", " ")
+	os.WriteFile(filepath.Join(vdir, "anchors.lock.json"), ab, 0o644)
 }
 
 func cmdLocals(args []string) {
